@@ -497,7 +497,7 @@ def gen_case(case_seed, profile, workdir, force_mode=None):
     pc = Placer()
     case["placer"] = pc
     case["decoys"] = []          # dicts: t (torrent index), l (layout index), kind, path
-    n_samesize = 0
+    n_samesize = n_longer = 0
 
     def spot(where, root):
         """(search root, band) enumerated before / after band '5' of `root` under the case's listing order"""
@@ -512,7 +512,11 @@ def gen_case(case_seed, profile, workdir, force_mode=None):
             want_same = len(data) > 0 and rng.random() < 0.30 and n_samesize < 5
             want_part = len(data) > t["pl"] and "v1" == t["views"][0] and \
                 ((profile == "c14" and rng.random() < 0.2) or (profile == "d27" and not case.get("partial")))
-            banded = want_same or want_part
+            # same name, LONGER than recorded: the genuine bytes followed by junk, enumerated before the genuine file (a size
+            # test that lets longer candidates through verifies every piece that ends inside the genuine bytes)
+            want_longer = len(data) > 0 and profile in ("c13", "c14") and rng.random() < (0.5 if len(data) > t["pl"] else 0.2) \
+                and n_longer < 4
+            banded = want_same or want_part or want_longer
             root = rng.randrange(nroots)
             p = pc.place(rng, root, "5" if banded else None, fname, data, "intact", min_depth=1 if banded else 0)
             e["intact_at"] = p
@@ -522,6 +526,12 @@ def gen_case(case_seed, profile, workdir, force_mode=None):
                     r2, band = spot(where, root)
                     q = pc.place(rng, r2, band, fname, wholly_different(data, rng.randrange(251)), "same-size decoy", 1)
                     case["decoys"].append({"t": ti, "l": li, "kind": "same-size", "path": q})
+            if want_longer:
+                n_longer += 1
+                r2, band = spot("before", root)
+                junk = rng.choice([b"\x00", b"!", bytes(rng.choice([1, 7, t["pl"]])), rng.randbytes(rng.choice([3, 100, t["pl"] + 1]))])
+                q = pc.place(rng, r2, band, fname, data + junk, "longer decoy (genuine bytes, then junk)", 1)
+                case["decoys"].append({"t": ti, "l": li, "kind": "longer", "path": q})
             if want_part:
                 # agrees with the intact file on one whole piece overlapping it, differs in every other byte
                 off = e["offset"]
@@ -601,6 +611,9 @@ def gen_case(case_seed, profile, workdir, force_mode=None):
                     d["enumerated"] = rel
                     if d["kind"] == "different-size":
                         cl.add("candidates: different-size decoy")
+                    elif d["kind"] == "longer":
+                        cl.add("candidates: longer decoy (genuine bytes then junk) " +
+                               ("in the enumeration order of the filesystem" if case["order"] == "native" else rel + " the intact copy"))
                     elif case["order"] == "native":
                         cl.add(f"candidates: {d['kind']} decoy, enumeration order of the filesystem")
                     elif d["kind"] == "same-size":
@@ -706,6 +719,9 @@ def judge_destination(case, dest):
                 missing.append((e, "missing"))
             else:
                 got = oracle.read(p)
+                if len(got) != e["length"]:
+                    problems.append({"kind": "destination-file-length-differs", "torrent": t["name"],
+                                     "detail": f"{'/'.join(e['rel'])}: {len(got)} bytes in the destination, {e['length']} recorded"})
                 if got != e["data"]:
                     missing.append((e, "wrong content" if len(got) == len(e["data"]) else
                                     f"wrong length {len(got)} for {len(e['data'])}"))
@@ -1369,3 +1385,161 @@ def extract_tie(ctx, model_ok):
                          "entries path:full:filename:length:root, or none = refused)",
                          {"metafile": label, "source": src, "metafile_hex": l[0] if len(l[0]) < 1600 else l[0][:800] + "..."},
                          o[:500], (got if not err else f"none ({err})")[:500])
+
+
+def match_v2_tie(ctx, model_ok):
+    """Metadata._match_v2 (real Metadata, real _index_contents, real HasherV2; copypath and the callback recorded) vs the extracted
+       extract + match_v2 on the same metafile bytes and the same candidates"""
+    core.use_repo_in_process()
+    from torrentfile import rebuild as rb
+    rng = ctx.rng
+    n = 160 if ctx.tier == "quick" else 2500
+    lines, impl, descs = [], [], []
+    real_listdir = os.listdir
+    with core.Scratch("vc13v_") as tmp:
+        for ci in range(n):
+            big = ci % 8 == 7
+            pl = rng.choice([16384, 32768])
+            k = rng.randrange(1, 5)
+            small = [0, 0, 1, 2, 100, 300]
+            sizes = [rng.choice(small) for _ in range(k)]
+            if big:
+                sizes[rng.randrange(k)] = rng.choice([16383, 16384, 16385, pl, pl + 1, 2 * pl + 5])
+            combos = [(d, nm) for d in ((), ("d0",), ("d1",), ("d1", "s")) for nm in ("a", "b", "c")]
+            rng.shuffle(combos)
+            comps = [c[0] + (c[1],) for c in combos[:k]]
+            datas = [rng.randbytes(s) for s in sizes]
+            single = k == 1 and rng.random() < 0.4
+            version = rng.choice([2, 2, 3])
+            cdir = os.path.join(tmp, f"c{ci}")
+            os.makedirs(os.path.join(cdir, "s"))
+            mf = os.path.join(cdir, "m.torrent")
+            how = "reference encoder"
+            if ci % 10 == 3 and sum(sizes) > 0:
+                how = rng.choice(["v2-class", "v2-asm", "hybrid-class", "hybrid-asm"])
+                root = os.path.join(cdir, "orig", "n")
+                trees.write_tree(root, {(): datas[0]} if single else dict(zip(comps, datas)))
+                raw = trees.create(how, root, mf, pl)
+            else:
+                raw = oracle.ref_metafile("n", [((), datas[0])] if single else sorted(zip(comps, datas)), pl, version, single=single)
+            tamper = None
+            r = rng.random()
+            if r < 0.4 and not how.startswith(("v2-", "hybrid-")):
+                meta = oracle.bdecode_strict(raw)
+                leaves = []
+
+                def rec(d):
+                    for key, v in d.items():
+                        if key == b"" and isinstance(v, dict) and b"length" in v:
+                            leaves.append(v)
+                        elif isinstance(v, dict):
+                            rec(v)
+                rec(meta[b"info"][b"file tree"])
+                leaf = rng.choice(leaves)
+                tamper = rng.choice(["root damaged", "root dropped", "recorded length + 1", "recorded length - 1", "root an empty list",
+                                     "root a text", "root an int", "length 0 with the root of the file"])
+                if tamper == "root damaged" and b"pieces root" in leaf:
+                    x = bytearray(leaf[b"pieces root"])
+                    x[rng.randrange(32)] ^= 1 << rng.randrange(8)
+                    leaf[b"pieces root"] = bytes(x)
+                elif tamper == "root dropped":
+                    leaf.pop(b"pieces root", None)
+                elif tamper == "recorded length + 1":
+                    leaf[b"length"] += 1
+                elif tamper == "recorded length - 1":
+                    leaf[b"length"] -= 1
+                elif tamper == "root an empty list":
+                    leaf[b"pieces root"] = []
+                elif tamper == "root a text":
+                    leaf[b"pieces root"] = b"r" * 32
+                elif tamper == "root an int":
+                    leaf[b"pieces root"] = 7
+                elif tamper == "length 0 with the root of the file":
+                    leaf[b"length"] = 0
+                raw = oracle.bencode(meta)
+            with open(mf, "wb") as fd:
+                fd.write(raw)
+            slot = 0
+            kinds = set()
+            for j in range(k):
+                nm = "n" if single else comps[j][-1]
+                cands = []
+                if rng.random() < 0.85:
+                    cands.append(("intact", datas[j]))
+                if rng.random() < 0.4 and sizes[j]:
+                    cands.append(("wrong", wholly_different(datas[j], rng.randrange(251))))
+                if rng.random() < 0.3 and sizes[j] > 1:
+                    d = bytearray(datas[j])
+                    d[rng.randrange(len(d))] ^= 0x55
+                    cands.append(("one byte off", bytes(d)))
+                if rng.random() < 0.35:
+                    cands.append(("longer: genuine bytes then junk", datas[j] + rng.choice([b"!", b"\x00", bytes(5), rng.randbytes(40)])))
+                if rng.random() < 0.25 and sizes[j]:
+                    cands.append(("shorter", datas[j][:-1]))
+                if rng.random() < 0.15:
+                    cands.append(("empty", b""))
+                if rng.random() < 0.12:
+                    cands = []
+                rng.shuffle(cands)
+                for kind, d in cands:
+                    kinds.add(kind)
+                    sd = os.path.join(cdir, "s", f"{slot:02d}")
+                    slot += 1
+                    os.makedirs(sd)
+                    with open(os.path.join(sd, nm), "wb") as fd:
+                        fd.write(d)
+            dest = os.path.join(cdir, "dest")
+            calls, counted = [], []
+            real_copy = rb.copypath
+            os.listdir = lambda p=".": sorted(real_listdir(p))
+            fm = {}
+            try:
+                try:
+                    m = rb.Metadata(mf)
+                    fm = rb._index_contents([os.path.join(cdir, "s")], m.filenames)
+                    rb.copypath = lambda src, dst: (calls.append((src, os.path.relpath(dst, dest))), real_copy(src, dst))[1]
+                    rb.Metadata.cb = staticmethod(lambda *a: counted.append(a))
+                    if m.meta_version != 2:
+                        im = "none"
+                    else:
+                        trees.quiet(m.rebuild, fm, dest)
+                        im = f"{len(counted)}|" + (",".join(hx(a) + ">" + hx(b) for a, b in calls) or "-")
+                    mpl = m.piece_length
+                except Exception as e:  # noqa
+                    ctx.disagree("Metadata._match_v2 raised", {"sizes": sizes, "pl": pl, "files": ["/".join(c) for c in comps], "tamper": tamper},
+                                 "a trace", f"{type(e).__name__}: {e}")
+                    continue
+            finally:
+                rb.copypath = real_copy
+                os.listdir = real_listdir
+                if "cb" in rb.Metadata.__dict__:
+                    del rb.Metadata.cb
+            fmf = ";".join(hx(nm) + "=" + ",".join(hx(loc) + ":" + oracle.read(loc).hex() for loc, _sz in cs)
+                           for nm, cs in fm.items()) or "-"
+            lines.append(("16384", str(mpl), raw.hex(), fmf))
+            impl.append(im)
+            descs.append({"pl": pl, "sizes": sizes, "files": "n (single file)" if single else ["/".join(c) for c in comps],
+                          "metafile": how + (f", hybrid" if version == 3 else ""), "tampered": tamper, "candidates": sorted(kinds)})
+            cl = ["match_v2 tie", "match_v2 tie: metafile by " + how] + ["match_v2 tie: candidate " + x for x in sorted(kinds)]
+            if tamper:
+                cl.append("match_v2 tie: " + tamper)
+            if single:
+                cl.append("match_v2 tie: single-file form")
+            if 0 in sizes:
+                cl.append("match_v2 tie: empty file")
+            if not single and len({c[-1] for c in comps}) < k:
+                cl.append("two files of the torrent share a file name")
+            cl.append("match_v2 tie: " + ("no copy" if not calls else "every entry copied" if len(calls) == k else "some entries copied"))
+            ctx.case(key=("matchv2", ci, pl, tuple(sizes), tuple(comps), tamper, im[:60]), classes=cl, nontrivial=sum(sizes) > 0,
+                     sample=dict(descs[-1], copypath_calls=[(os.path.relpath(a, cdir), b) for a, b in calls][:6]) if ci == 4 else None)
+            shutil.rmtree(cdir, ignore_errors=True)
+    if not model_ok:
+        return
+    outs = modelrun.run("matchv2", lines)
+    if outs is None:
+        ctx.broken.append("extracted model driver (matchv2) failed to run")
+        return
+    for o, im, d in zip(outs, impl, descs):
+        ctx.traces_validated += 1
+        if o != im:
+            ctx.disagree("Model/RebuildMeta.v extract + match_v2 (count | copypath trace) vs Metadata._match_v2", d, o[:400], im[:400])
